@@ -363,6 +363,24 @@ pub fn alphabet(name: &str) -> Vec<Op> {
             Op::Add(lam(100, q4(0, 1, 2, 100))),
             Op::Add(u(q4(0, 1, 2, 3))),
         ],
+        "PAY" => {
+            // operators with a payload: two payload leaves, the payload-plus-child operator under two payloads, and unions
+            // that make nodes with DIFFERENT payloads members of one class / parents of one class
+            let n = |k: u32| T { op: if k == 1 { "n1" } else { "n2" }, args: vec![] };
+            let s = |k: u32, c: T| node1(if k == 2 { "s2" } else { "s3" }, c);
+            vec![
+                Op::Add(b(n(1), n(2))),
+                Op::Add(s(2, n(1))),
+                Op::Add(s(3, n(1))),
+                Op::Add(s(2, var(0))),
+                Op::Add(s(3, h(0))),
+                Op::Union(n(1), cc()),
+                Op::Union(s(2, var(0)), s(3, var(0))),
+                Op::Union(s(2, var(0)), h(0)),
+                Op::Union(n(2), s(2, n(2))),
+                Op::Union(var(0), n(1)),
+            ]
+        }
         "TERN" => {
             // a ternary operator over classes (children that share a slot) and an operator with a public slot of its own
             // next to a child
